@@ -2,6 +2,7 @@
 import importlib
 import json
 import os
+import glob
 import random
 import re
 import time
@@ -208,6 +209,8 @@ def run_property(P, tier, seed, replay=None):
             bins.append(("release", h2))
 
     # 4. cases
+    for old_replay in glob.glob(os.path.join(vlib.ROOT, 'evidence', 'replays', P.id + '-*.json')):
+        os.remove(old_replay)     # replays of earlier runs say nothing about this one
     rng = random.Random(seed)
     if replay:
         rj = json.load(open(replay))
